@@ -34,7 +34,7 @@ META = {
     "design_ref": "DESIGN.md section 6 (C12)",
 }
 GEN = []
-TARGETS = ["Base/SseVocab", "Model/SseLegacy", "Spec/C12", "Proofs/SseLegacy", "Props/C12"]
+TARGETS = ["Base/SseVocab", "Model/SseLegacy", "Spec/C12", "Proofs/SseLegacy", "Proofs/C12Spec", "History/C12_prefix", "Props/C12"]
 TRUSTED = [
     "Coq 8.16.1 kernel (coqc); coqchk re-check in the thorough tier; vm_compute only in the refutation witnesses",
     "axioms: none (every C12 theorem prints 'Closed under the global context')",
@@ -1051,8 +1051,15 @@ def replay(ctx, data):
         sc = {"timeout": case["timeout"], "script": case["script"], "actions": []}
         o = session(sc)
         print("enter:", o["enter"], "exit:", o["exit"], "leftovers:", o["left_tasks"], o["clients_open"], o["streams_open"])
-        bad = (not o["enter"]) if data.get("class") in ("sse-field-without-space-not-recognised", "announced-endpoint-not-entered") \
-            else bool(o["enter"])
+        klass = data.get("class")
+        if klass in ("sse-field-without-space-not-recognised", "announced-endpoint-not-entered"):
+            bad = not o["enter"]
+        elif klass == "dead-connection-entered":
+            bad = bool(o["enter"])
+        elif klass == "enter-raises-after-timeout":
+            bad = not o["enter"] and o["exit"][1] > ms(case["timeout"])
+        else:
+            bad = bool(o["left_tasks"] or o["clients_open"] or o["streams_open"] or o["mem_open"])
         print("REPRODUCED" if bad else "not reproduced")
         return 1 if bad else 0
     if kind == "exit":
